@@ -21,7 +21,7 @@ LEVEL_TEXT = ("Generated valid schema models are split at random into a base SDL
 LEVEL_NOTE = "trusted: canonical extraction/comparison, the generator's SDL renderer and splitter; change soundness is judged on printed definitions (print_schema blocks)"
 TECHNIQUE = "runtime monitoring: algebraic laws (extend = build, sort idempotent/order-only, change detector silent on equals and sound on single edits) over generated schema pairs"
 RULE = ("(base, extension) pairs from G-schema.split_extension; schemas and 1-edit mutants of their models (add/remove/retype field, argument, input field, enum value, union member, "
-        "interface, default, repeatable flag, location). Non-trivial: the extension document has >= 2 definitions, or the mutant changes the printed schema; distinct = (base SDL, extension / edit).")
+        "interface, default, repeatable flag, location, whole type, kind of a type, directive and directive arguments, argument types, member and directive descriptions). Non-trivial: the extension document has >= 2 definitions, or the mutant changes the printed schema; distinct = (base SDL, extension / edit).")
 ASSUMPTIONS = ["a reported change is attributed to the definitions whose names occur in its description"]
 REQUIRED_COUNTERS = ["extend_vs_build_compared", "original_unchanged_checked", "noop_extensions_checked", "sort_laws_checked", "self_comparisons", "mutant_change_sets_checked"]
 
@@ -52,7 +52,9 @@ def mutate_model(rng, m):
         kinds.setdefault(t['kind'], []).append(n)
     edits = ['add_field', 'remove_field', 'retype_field', 'add_arg', 'remove_arg', 'change_default', 'add_enum_value', 'remove_enum_value',
              'remove_union_member', 'drop_interface', 'toggle_repeatable', 'add_location', 'retype_input_field', 'add_input_field', 'remove_type',
-             'change_description', 'deprecate_field', 'nothing']
+             'change_description', 'deprecate_field', 'nothing', 'change_kind', 'remove_directive', 'add_directive', 'directive_add_arg',
+             'directive_remove_arg', 'directive_retype_arg', 'directive_arg_default', 'retype_arg', 'describe_member', 'describe_directive',
+             'remove_location']
     e = rng.choice(edits)
     oi = kinds.get('object', []) + kinds.get('interface', [])
 
@@ -122,6 +124,60 @@ def mutate_model(rng, m):
         elif e == 'deprecate_field' and oi:
             t = T[rng.choice(oi)]
             t['fields'][rng.choice(list(t['fields']))]['deprecation'] = 'because'
+        elif e == 'remove_type':
+            cands = [n for n in T if n not in M['roots'].values()]
+            if cands:
+                del T[rng.choice(cands)]         # builds only if nothing refers to it any more
+        elif e == 'change_kind':
+            cands = kinds.get('enum', []) + kinds.get('scalar', [])
+            if cands:
+                n = rng.choice(cands)
+                if T[n]['kind'] == 'enum':
+                    T[n] = {'kind': 'scalar', 'desc': T[n]['desc'], 'specified_by': None}
+                else:
+                    T[n] = {'kind': 'enum', 'desc': T[n]['desc'], 'values': {'ONLY': {'desc': None, 'deprecation': None}}}
+        elif e == 'remove_directive' and M['directives']:
+            del M['directives'][rng.choice(list(M['directives']))]
+        elif e == 'add_directive':
+            M['directives']['brandNewDirective'] = {'desc': None, 'args': {}, 'locations': ['FIELD'], 'repeatable': False, 'deprecation': None}
+        elif e == 'directive_add_arg' and M['directives']:
+            d = M['directives'][rng.choice(list(M['directives']))]
+            d['args']['extraArg'] = {'type': rng.choice([('n', 'Int'), ('nn', ('n', 'Int'))]), 'default': rng.choice([None, '3']), 'desc': None, 'deprecation': None}
+        elif e in ('directive_remove_arg', 'directive_retype_arg', 'directive_arg_default') and M['directives']:
+            cands = [d for d in M['directives'].values() if d['args']]
+            if cands:
+                d = rng.choice(cands)
+                an = rng.choice(list(d['args']))
+                if e == 'directive_remove_arg':
+                    del d['args'][an]
+                elif e == 'directive_retype_arg':
+                    d['args'][an]['type'] = flip(d['args'][an]['type']) if rng.random() < 0.6 else ('l', d['args'][an]['type'])
+                    if d['args'][an]['type'][0] == 'nn':
+                        d['args'][an]['deprecation'] = None
+                else:
+                    a = d['args'][an]
+                    a['default'] = None if a['default'] is not None else ('null' if a['type'][0] != 'nn' else None)
+        elif e == 'retype_arg' and oi:
+            cands = [a for n in oi for f in T[n]['fields'].values() for a in f['args'].values()]
+            if cands:
+                a = rng.choice(cands)
+                a['type'] = flip(a['type']) if rng.random() < 0.6 else ('l', a['type'])
+                if a['type'][0] == 'nn':
+                    a['deprecation'] = None
+        elif e == 'describe_member':
+            cands = [f for n in oi for f in T[n]['fields'].values()]
+            cands += [a for n in oi for f in T[n]['fields'].values() for a in f['args'].values()]
+            cands += [f for n in kinds.get('input', []) for f in T[n]['fields'].values()]
+            cands += [v for n in kinds.get('enum', []) for v in T[n]['values'].values()]
+            cands += [a for d in M['directives'].values() for a in d['args'].values()]
+            if cands:
+                rng.choice(cands)['desc'] = rng.choice(['changed member description', 'two\nlines', ''])
+        elif e == 'describe_directive' and M['directives']:
+            M['directives'][rng.choice(list(M['directives']))]['desc'] = 'changed directive description'
+        elif e == 'remove_location' and M['directives']:
+            d = M['directives'][rng.choice(list(M['directives']))]
+            if len(d['locations']) > 1:
+                d['locations'].pop(rng.randrange(len(d['locations'])))
     except (KeyError, IndexError):
         pass
     return M, e
